@@ -71,6 +71,7 @@ class RelayWorld(object):
     self.prop = plan.get('prop', 'C07')
     self.route_checks = plan.get('route_checks', False)
     self.paused_seen = False
+    self.removed_in_event = set()
 
   # ------------------------------------------------------------------ set-up
   def install(self):
@@ -183,6 +184,7 @@ class RelayWorld(object):
     if dest is None:
       return
     transport.bufferSize = self.plan.get('bufsize', 65536)
+    transport.close_delay = self.plan.get('close_delay', 0.0)
     transport.peer_eager = not dest.stalled
     transport.on_write = lambda t, data, d=dest: self.on_write(d, t, data)
     dest.conns.append(transport)
@@ -195,9 +197,20 @@ class RelayWorld(object):
       real_lose()
     transport.loseConnection = loseConnection
     self.ctx.probe('connection_made')
+    real_disc = None
 
   def on_lose(self, d, t):
-    if self.stopping and not t.disconnected and not t.disconnecting:
+    # only a close initiated by the stop itself (factory.stopConnecting), not e.g. a
+    # connection-quality reset that happens to occur while the daemon is stopping
+    import sys
+    f = sys._getframe(1)
+    by_stop = False
+    while f is not None:
+      if f.f_code.co_name == 'stopConnecting':
+        by_stop = True
+        break
+      f = f.f_back
+    if self.stopping and by_stop and not t.disconnected and not t.disconnecting:
       self.ctx.probe('stop_closed_connected_destination')
       if d.factory.queue:
         self.ctx.violation('C07', 'stop-closed-before-flush', 'stop',
@@ -395,6 +408,8 @@ class RelayWorld(object):
       self.member_ops.append(('add', d))
 
   def membership_changed(self, op, dest, before=None):
+    if op == 'remove':
+      self.removed_in_event.add(dest)
     self.ctx.probe('membership_' + op)
     self.ctx.log.add('member', op, dest)
     if self.route_checks:
@@ -410,6 +425,7 @@ class RelayWorld(object):
   # ------------------------------------------------------------------ events
   def begin_event(self):
     self.accept_log = []
+    self.removed_in_event = set()
     self.q_before = {dest: list(d.factory.queue) for dest, d in self.dests.items()}
     self.fake_before = list(self.fake.queue)
     self.members_before = set(dest for dest in self.dests if self.router.hasDestination(dest))
@@ -420,21 +436,43 @@ class RelayWorld(object):
       self.paused_seen = True
     # dynamic-router removal: queued datapoints must be re-routed, not lost
     for dest, d in self.dests.items():
-      was = dest in self.members_before
-      now = self.router.hasDestination(dest)
       qb = self.q_before.get(dest, [])
-      if was and not now:
+      if dest in self.removed_in_event:
         self.ctx.probe('destination_removed')
         if qb:
           self.ctx.probe('destination_removed_with_nonempty_queue')
         if d.factory.queueFull.called:
           self.ctx.probe('destination_removed_while_reported_full')
-        if not d.factory.queue and qb:
-          self.moved(d, qb, what)
+        if not d.factory.queue:
+          # everything it still owed (queued before the event or accepted during it)
+          normal = [a for a in d.accepted if not a[3]]
+          owed = [(a[1], tuple(a[2])) for a in normal[d.unwritten_start:]]
+          if owed:
+            self.moved(d, owed, what)
       self.check_queue_bound(d)
     if self.fake_before and not self.fake.queue:
       self.ctx.probe('holding_buffer_reinjected')
       self.moved(None, self.fake_before, what)
+    # conservation: what a destination has accepted and not yet written is exactly what
+    # its queue holds (self-metrics aside) -- nothing vanishes, nothing is invented
+    for dest, d in self.dests.items():
+      normal = [a for a in d.accepted if not a[3]]
+      owed = [(a[1], tuple(a[2])) for a in normal[d.unwritten_start:]]
+      queued = [(m, tuple(dp)) for (m, dp) in d.factory.queue if not str(m).startswith('carbon.self.')]
+      if owed != queued:
+        missing = [x for x in owed if x not in queued]
+        extra = [x for x in queued if x not in owed]
+        clause = 'accepted-datapoint-vanished' if missing else ('queue-holds-unaccepted' if extra else
+                                                                'queue-order-differs')
+        for pr in (('C07', 'C15') if missing else ('C07',)):
+          # C15: splitting the queue into messages never drops datapoints
+          self.ctx.violation(pr, clause, what,
+                             '%s after %s: accepted-but-unwritten %r, queue holds %r' % (
+                               dest, what, owed[:6], queued[:6]))
+        # resynchronise so that one loss is reported once
+        keep = normal[:d.unwritten_start]
+        qn = [a for a in normal[d.unwritten_start:] if (a[1], tuple(a[2])) in queued]
+        d.accepted = keep + qn + [a for a in d.accepted if a[3]]
     sent_stat = 0
     self.pump_peers()
 
@@ -475,6 +513,8 @@ class RelayWorld(object):
 
   def do_op(self, op):
     k = op[0]
+    if self.r._stopped and not self.r.running:
+      return          # the reactor has halted: nothing runs any more
     self.ctx.log.add('op', *[repr(x)[:60] for x in op])
     ds = [self.dests[x] for x in self.order]
     self.begin_event()
@@ -560,6 +600,10 @@ class RelayWorld(object):
       self.begin_event()
     r.clock.sleep_until(target)
     r.run_due()
+    # close the event the last callbacks ran in, so that the caller's next
+    # begin_event() cannot discard what happened in it
+    self.end_event('timer')
+    self.begin_event()
 
   def timeouts_probe(self):
     pass
@@ -606,11 +650,13 @@ class RelayWorld(object):
       return
     self.stopping = True
     self.ctx.probe('stop')
+    # an orderly stop is reactor.stop(): 'before shutdown' stops the whole service tree
+    # (client manager, instrumentation, ...); the reactor goes on running until the
+    # Deferreds those services returned have fired, then crashes and disconnects
     try:
-      d = self.mgr.stopService()
-      self.stop_deferred = d
+      self.r.stop()
     except Exception as e:
-      self.ctx.note('stopService raised %r' % (e,))
+      self.ctx.note('reactor.stop raised %r' % (e,))
 
   # ------------------------------------------------------------------ end of run
   def heal(self):
@@ -661,14 +707,17 @@ class RelayWorld(object):
         continue        # the liveness clause presupposes that the destination accepts connections
       f = d.factory
       normal = [a for a in d.accepted if not a[3]]
-      if f.queue or d.unwritten_start < len(normal):
+      # datapoints accepted before the faults stopped (the daemon's own statistics keep
+      # arriving afterwards when instrumentation is on)
+      late = [a for a in normal[d.unwritten_start:] if a[0] <= self.aid_at_heal]
+      if late:
         connected = bool(f.connectedProtocol)
         if not f.started and not connected:
           continue
         self.ctx.violation('C07', 'not-delivered-after-heal', 'liveness',
-                           '%s: %d accepted datapoints unwritten (%d queued) after all faults stopped '
-                           'and %.0f virtual seconds; connected=%r' % (
-                             d.dest, len(normal) - d.unwritten_start, len(f.queue),
+                           '%s: %d datapoints accepted before the faults stopped are still unwritten '
+                           '(%d queued) %.0f virtual seconds later; connected=%r' % (
+                             d.dest, len(late), len(f.queue),
                              self.r.seconds() - self.heal_t, connected))
 
   def check_backpressure(self):
@@ -693,6 +742,8 @@ class RelayWorld(object):
                            self.router.countDestinations(), st.metricReceiversPaused, st.cacheTooFull, paused))
 
   def check_sent_counter(self):
+    if self.settings.CARBON_METRIC_INTERVAL:
+      return      # the counters are reset at every instrumentation tick
     stats = self.w.instrumentation.stats
     for d in self.dests.values():
       proto_sent = 'destinations.%s.sent' % d.factory.destinationName
@@ -715,6 +766,7 @@ class RelayWorld(object):
         self.ctx.probe('relay_paused')
     if not self.stopping:
       self.heal_t = self.r.seconds()
+      self.aid_at_heal = self.aid
       self.heal()
       self.check_liveness()
       self.check_backpressure()
